@@ -83,8 +83,8 @@ func newType(name string, cfg *types.Chain33Config) *vType {
 	return c
 }
 
-func (t *vType) GetName() string                    { return t.name }
-func (t *vType) GetPayload() types.Message          { return &mty.ManageAction{} }
+func (t *vType) GetName() string                     { return t.name }
+func (t *vType) GetPayload() types.Message           { return &mty.ManageAction{} }
 func (t *vType) GetLogMap() map[int64]*types.LogInfo { return map[int64]*types.LogInfo{} }
 func (t *vType) GetTypeMap() map[string]int32 {
 	return map[string]int32{"Modify": mty.ManageActionModifyConfig}
